@@ -290,10 +290,7 @@ void ArrayManager::processArrayDeclaration(Variable &var, const ASTNode *node) {
         var.is_multidimensional = true;
 
         // 総要素数を計算
-        int total_size = 1;
-        for (int dim : var.array_dimensions) {
-            total_size *= dim;
-        }
+        int total_size = calculateTotalSize(var.array_dimensions);
         var.array_size = total_size;
 
         // 要素の型
@@ -1765,11 +1762,19 @@ void ArrayManager::initializeMultidimensionalArray(
 }
 
 int ArrayManager::calculateTotalSize(const std::vector<int> &dimensions) {
-    int total = 1;
+    // the product is formed in 64 bits and bounded: an int product overflows
+    // (undefined behaviour) for e.g. int[65536][65536]
+    const int64_t max_elements = 268435456; // 2^28 elements (2 GiB of long)
+    int64_t total = 1;
     for (int dim : dimensions) {
         total *= dim;
+        if (total > max_elements || total < -max_elements) {
+            throw std::runtime_error("Array too large: more than " +
+                                     std::to_string(max_elements) +
+                                     " elements");
+        }
     }
-    return total;
+    return static_cast<int>(total);
 }
 
 std::vector<int> ArrayManager::extractDimensionSizes(
